@@ -40,7 +40,7 @@ pub fn plan(prop: &str) -> Option<Plan> {
         },
         "C17" => Plan {
             level: "exploration",
-            parts: vec![p("worldsim", "churn", 80_000, 3_000_000), p("worldsim", "lifecycle", 60_000, 1_500_000), p("worldsim", "bulk", 12_000, 300_000), p("worldsim", "faults", 30_000, 300_000)],
+            parts: vec![p("worldsim", "churn", 80_000, 3_000_000), p("worldsim", "lifecycle", 60_000, 1_500_000), p("worldsim", "bulk", 12_000, 300_000), p("worldsim", "parallel", 20_000, 400_000), p("worldsim", "faults", 30_000, 300_000)],
             cross_process: false,
             miri: vec![],
             assumptions: base,
@@ -131,7 +131,7 @@ pub fn plan(prop: &str) -> Option<Plan> {
         },
         "C20" => Plan {
             level: "exploration",
-            parts: vec![p("twin", "world", 36_000, 1_200_000), p("twin", "save", 36_000, 1_200_000), p("twin", "faults", 6_000, 100_000)],
+            parts: vec![p("twin", "world", 36_000, 1_200_000), p("twin", "save", 36_000, 1_200_000), p("twin", "faults", 6_000, 100_000), p("twin", "bulkhuge", 900, 12_000)],
             cross_process: true,
             miri: vec![],
             assumptions: vec![A_SAMPLING, "destructor order inside HashMapStorage::clear / world teardown and UuidMarker values are not part of the transcript (hash order / OS randomness by construction, and not among the observables the property lists)", "ahash's per-process random keys have no seam; they are varied by re-executing in other processes"],
@@ -165,6 +165,7 @@ pub fn selftest(runs: u64) -> i32 {
         ("twin", "faults"),
         ("worldsim", "trackedfaults"),
         ("worldsim", "bulk"),
+        ("twin", "bulkhuge"),
     ] {
         let part = p(engine, profile, runs, runs);
         let a = run_part("", &part, runs, DEFAULT_SEED, 16, Duration::from_secs(600), true);
